@@ -15,6 +15,8 @@ def specs(tier):
     js = [
         J('single1:S4', 'steady', dict(n=1, methods=('boom', 'boom0')), dict(S=4, H=1), dict(k=0)),
         J('single1-classes:S3', 'steady', dict(n=1, methods=('boomx', 'boomo')), dict(S=3, H=1), dict(k=0)),
+        J('steady2-twoargs:S2H1', 'steady', dict(n=2, methods=('boom2',)), dict(S=2, H=1), dict(k=0)),
+        J('lagsnap3-boom:S1H2R1', 'lagging_snap', dict(n=3, methods=('boom',)), dict(S=1, H=2, R=1)),
         J('steady2-classes:S2H1', 'steady', dict(n=2, methods=('boomx', 'boomo')), dict(S=2, H=1), dict(k=0)),
         J('steady2:S2H1', 'steady', dict(n=2, methods=('boom', 'boom0')), dict(S=2, H=1), dict(k=0)),
         J('steady2-boom:S3H1', 'steady', dict(n=2, methods=('boom',)), dict(S=3, H=1), dict(k=0)),
